@@ -270,7 +270,7 @@ Proof.
   destruct (fill_price p m (t_feeder t) (t_val t) (t_nonce t) (t_prices t)) as [m1' res1'].
   simpl in H1, H2. subst res1'.
   destruct (erase_eq_fields _ _ H1) as [Hv [Hr [Hm [Hc [Hu Hp]]]]].
-  destruct res1 as [|it|price rid]; simpl.
+  destruct res1 as [|it|price rid it]; simpl.
   - repeat split; try reflexivity. exact H1.
   - repeat split; try reflexivity. rewrite !erase_set_msgs, H1, Hm. reflexivity.
   - rewrite Hv, Hm. repeat split; try reflexivity. rewrite !erase_set_msgs, H1. reflexivity.
@@ -545,7 +545,7 @@ Proof.
     - intros w l Hw Hl. eapply Hs; eassumption. }
   destruct (fill_price p (st_mem st) (t_feeder t) (t_val t) (t_nonce t) (t_prices t)) as [m1 res]. simpl in Hfp.
   destruct Hfp as [Hwf1 Hs1].
-  destruct res as [|it|price rid]; simpl.
+  destruct res as [|it|price rid it]; simpl.
   - split; [assumption|]. split; destruct (st_store st); simpl; assumption.
   - split; [destruct m1; exact Hwf1|]. split; destruct (st_store st); simpl; [destruct m1; exact Hs1 | assumption].
   - pose proof (nonce_remove_le (t_feeder t) (m_vals m1) ns') as Hle2.
@@ -631,8 +631,8 @@ Proof.
       intro Hin. apply in_app_or in Hin. tauto.
 Qed.
 
-Lemma fold_nonce_remove_le vals sealed : forall ns,
-  rows_le ns (fold_left (fun acc fid => nonce_remove fid vals acc) sealed ns).
+Lemma fold_nonce_remove_le (vf : list (Z * list (Z * Z)) -> list (Z * Z)) sealed : forall ns,
+  rows_le ns (fold_left (fun acc fid => nonce_remove fid (vf acc) acc) sealed ns).
 Proof.
   induction sealed as [|f r IH]; intro ns; simpl; [apply rows_le_refl|].
   eapply rows_le_trans; [apply nonce_remove_le | apply IH].
@@ -725,8 +725,8 @@ Proof.
   assert (Hn0 : rows_nonneg (s_nonce s0)) by (unfold s0; destruct vu; assumption).
   destruct (seal_safe p (st_h st) force (s_nonce s0) m1 Hwf1 Hs1) as [Hwf2 Hs2].
   destruct (seal p (st_h st) force m1) as [[m2 failed] sealed]. simpl in Hwf2, Hs2.
-  set (ns1 := fold_left (fun acc fid => nonce_remove fid (m_vals m2) acc) sealed (s_nonce s0)).
-  pose proof (fold_nonce_remove_le (m_vals m2) sealed (s_nonce s0)) as Hle. fold ns1 in Hle.
+  set (ns1 := fold_left (fun acc fid => nonce_remove fid (map (fun e => (fst e, 0)) acc) acc) sealed (s_nonce s0)).
+  pose proof (fold_nonce_remove_le (fun acc => map (fun e : Z * list (Z * Z) => (fst e, 0)) acc) sealed (s_nonce s0)) as Hle. fold ns1 in Hle.
   set (m3 := mkMem (m_vals m2) (m_rounds m2) (m_workers m2) [] (m_cvals m2) false (m_panic m2)).
   assert (Hwf3 : wf m3) by (intros fid w Hw; simpl in *; eapply Hwf2; eassumption).
   assert (Hs3 : nonce_safe ns1 m3).
@@ -984,9 +984,9 @@ Qed.
 Lemma worker_do_replay mn w v nonce power ps w1 kept fin :
   mn <> 0 -> aget v (w_nonces w) = None ->
   worker_do mn w v nonce power ps = (w1, Some kept, fin) ->
-  exists w2, worker_do mn w v 0 power kept = (w2, Some kept, fin) /\ w_core w2 = w_core w1.
+  forall rn, exists w2, worker_do mn w v rn power kept = (w2, Some kept, fin) /\ w_core w2 = w_core w1.
 Proof.
-  intros Hmn Hn. unfold worker_do. rewrite Hn.
+  intros Hmn Hn H rn. revert H. unfold worker_do. rewrite Hn.
   assert (Hadd : forall x, set_add mn x [] = ([x], true)).
   { intro x. apply (set_add_ok mn x []). split; [unfold zlen; simpl; congruence | reflexivity]. }
   rewrite !Hadd. destruct (core_do (w_core w) v power ps) as [[c1 k1] f1] eqn:E. intro H. inversion H; subst.
@@ -1012,8 +1012,12 @@ Fixpoint live_round (mn : Z) (w : worker) (msgs : list wmsg) : option (worker * 
       end
   end.
 
-Definition replay_round (mn : Z) (w : worker) (its : list witem) : worker :=
-  fold_left (fun acc (it : witem) => let '(v, power, kept) := it in fst (fst (worker_do mn acc v 0 power kept))) its w.
+(* the replay gives each item some nonce of its own: [rn] maps the position of the item to that nonce *)
+Fixpoint replay_round (mn : Z) (rn : nat -> Z) (k : nat) (w : worker) (its : list witem) : worker :=
+  match its with
+  | [] => w
+  | (v, power, kept) :: r => replay_round mn rn (S k) (fst (fst (worker_do mn w v (rn k) power kept))) r
+  end.
 
 Lemma worker_do_core_congr mn w w' v n n' power ps :
   mn <> 0 -> w_core w = w_core w' -> aget v (w_nonces w) = None -> aget v (w_nonces w') = None ->
@@ -1031,24 +1035,24 @@ Lemma worker_do_other_nonces mn w v n power ps u :
   u <> v -> aget u (w_nonces (fst (fst (worker_do mn w v n power ps)))) = aget u (w_nonces w).
 Proof. intro N. rewrite worker_do_nonces. apply aget_aset_neq. exact N. Qed.
 
-Lemma replay_round_faithful mn : mn <> 0 -> forall msgs w w' w2 its,
+Lemma replay_round_faithful mn rn : mn <> 0 -> forall msgs k w w' w2 its,
   NoDup (map (fun m : wmsg => fst (fst (fst m))) msgs) ->
   (forall m, In m msgs -> aget (fst (fst (fst m))) (w_nonces w) = None /\ aget (fst (fst (fst m))) (w_nonces w') = None) ->
   w_core w' = w_core w ->
   live_round mn w msgs = Some (w2, its) ->
-  w_core (replay_round mn w' its) = w_core w2.
+  w_core (replay_round mn rn k w' its) = w_core w2.
 Proof.
-  intros Hmn. induction msgs as [|[[[v nonce] power] ps] r IH]; intros w w' w2 its ND Hnone Hc H; simpl in H.
+  intros Hmn. induction msgs as [|[[[v nonce] power] ps] r IH]; intros k w w' w2 its ND Hnone Hc H; simpl in H.
   - inversion H; subst. simpl. exact Hc.
   - destruct (worker_do mn w v nonce power ps) as [[w1 k1] f1] eqn:E.
     destruct k1 as [kept|]; [|discriminate]. destruct f1; [discriminate|].
     destruct (live_round mn w1 r) as [[w3 its3]|] eqn:El; [|discriminate]. inversion H; subst. simpl.
     inversion ND as [|? ? Hnin ND']; subst.
     destruct (Hnone _ (or_introl eq_refl)) as [Hn1 Hn2]. simpl in Hn1, Hn2.
-    destruct (worker_do_replay mn w v nonce power ps w1 kept None Hmn Hn1 E) as [wr [Er Ecr]].
-    destruct (worker_do_core_congr mn w' w v 0 0 power kept Hmn Hc Hn2 Hn1) as [C1 [C2 C3]].
+    destruct (worker_do_replay mn w v nonce power ps w1 kept None Hmn Hn1 E (rn k)) as [wr [Er Ecr]].
+    destruct (worker_do_core_congr mn w' w v (rn k) (rn k) power kept Hmn Hc Hn2 Hn1) as [C1 [C2 C3]].
     rewrite Er in C1, C2, C3. simpl in C1, C2, C3.
-    apply (IH w1 (fst (fst (worker_do mn w' v 0 power kept))) w2 its3 ND').
+    apply (IH (S k) w1 (fst (fst (worker_do mn w' v (rn k) power kept))) w2 its3 ND').
     + intros m Hm. assert (Nv : fst (fst (fst m)) <> v).
       { intro Ev. apply Hnin. rewrite <- Ev. apply (in_map (fun m : wmsg => fst (fst (fst m)))). exact Hm. }
       destruct (Hnone _ (or_intror Hm)) as [A B]. split.
@@ -1057,4 +1061,75 @@ Proof.
       * rewrite worker_do_other_nonces by exact Nv. exact B.
     + rewrite C1. exact Ecr.
     + exact El.
+Qed.
+
+(* ---- a whole round at worker level, repeated validators: why distinct replay nonces repair the replay -------- *)
+Definition nl (w : worker) (v : Z) : list Z := match aget v (w_nonces w) with Some l => l | None => [] end.
+
+Lemma worker_do_ok_inv mn w v n power ps w1 kept fin :
+  worker_do mn w v n power ps = (w1, Some kept, fin) ->
+  set_add mn n (nl w v) = (nl w v ++ [n], true) /\ core_do (w_core w) v power ps = (w_core w1, Some kept, fin) /\
+  w_nonces w1 = aset v (nl w v ++ [n]) (w_nonces w).
+Proof.
+  unfold worker_do, nl. destruct (set_add mn n _) as [ns1 ok] eqn:E. destruct ok.
+  - destruct (core_do (w_core w) v power ps) as [[c1 k1] f1] eqn:Ec. intro H. inversion H; subst. simpl.
+    assert (ns1 = match aget v (w_nonces w) with Some l => l | None => [] end ++ [n]).
+    { unfold set_add in E. destruct ((zlen _ =? mn) || zmem n _); inversion E; reflexivity. }
+    subst ns1. repeat split; reflexivity.
+  - intro H. inversion H.
+Qed.
+
+Lemma worker_do_ok_intro mn w v n power ps c1 kept fin :
+  add_ok mn n (nl w v) -> core_do (w_core w) v power ps = (c1, kept, fin) ->
+  worker_do mn w v n power ps = (mkW (aset v (nl w v ++ [n]) (w_nonces w)) c1, kept, fin).
+Proof.
+  intros Hok Hc. unfold worker_do. fold (nl w v). rewrite (set_add_ok _ _ _ Hok), Hc. reflexivity.
+Qed.
+
+Lemma nl_aset_eq w v l c : nl (mkW (aset v l (w_nonces w)) c) v = l.
+Proof. unfold nl. simpl. rewrite aget_aset_eq. reflexivity. Qed.
+Lemma nl_aset_neq w v u l c : u <> v -> nl (mkW (aset v l (w_nonces w)) c) u = nl w u.
+Proof. intro N. unfold nl. simpl. rewrite aget_aset_neq by exact N. reflexivity. Qed.
+
+(* the replayed worker w' mirrors the live worker w: same core, same number of remembered nonces per validator, and all
+   its nonces were handed out by rn at positions < k *)
+Definition mirrors (rn : nat -> Z) (k : nat) (w w' : worker) : Prop :=
+  w_core w' = w_core w /\ (forall v, zlen (nl w' v) = zlen (nl w v)) /\
+  (forall v n, In n (nl w' v) -> exists j, (j < k)%nat /\ rn j = n).
+
+Lemma zmem_false_notin n l : ~ In n l -> zmem n l = false.
+Proof.
+  induction l as [|a r IH]; intro H; simpl; [reflexivity|].
+  destruct (n =? a) eqn:E; [apply Z.eqb_eq in E; subst; exfalso; apply H; left; reflexivity|].
+  simpl. apply IH. intro Hin. apply H. right. exact Hin.
+Qed.
+
+Lemma replay_round_general mn rn : mn <> 0 -> (forall i j, rn i = rn j -> i = j) -> forall msgs k w w' w2 its,
+  mirrors rn k w w' ->
+  live_round mn w msgs = Some (w2, its) ->
+  w_core (replay_round mn rn k w' its) = w_core w2.
+Proof.
+  intros Hmn Hinj. induction msgs as [|[[[v nonce] power] ps] r IH]; intros k w w' w2 its [Hc [Hlen Hfrom]] H; simpl in H.
+  - inversion H; subst. simpl. exact Hc.
+  - destruct (worker_do mn w v nonce power ps) as [[w1 k1] f1] eqn:E.
+    destruct k1 as [kept|]; [|discriminate]. destruct f1; [discriminate|].
+    destruct (live_round mn w1 r) as [[w3 its3]|] eqn:El; [|discriminate]. inversion H; subst. simpl.
+    destruct (worker_do_ok_inv _ _ _ _ _ _ _ _ _ E) as [Hadd [Hcore Hn1]].
+    assert (Hok' : add_ok mn (rn k) (nl w' v)).
+    { split.
+      - rewrite Hlen. unfold set_add in Hadd. destruct (zlen (nl w v) =? mn) eqn:Ez; [simpl in Hadd; inversion Hadd|].
+        apply Z.eqb_neq in Ez. exact Ez.
+      - apply zmem_false_notin. intro Hin. destruct (Hfrom _ _ Hin) as [j [Hj Ej]]. apply Hinj in Ej. lia. }
+    pose proof (core_do_replay _ _ _ _ _ _ _ Hcore) as Hrep. rewrite <- Hc in Hrep.
+    rewrite (worker_do_ok_intro mn w' v (rn k) power kept _ _ _ Hok' Hrep). simpl.
+    apply (IH (S k) w1 _ w2 its3); [|exact El].
+    split; [reflexivity|]. split.
+    + intro u. destruct w1 as [n1 c1]. simpl in Hn1. subst n1. destruct (Z.eq_dec u v) as [->|N].
+      * rewrite !nl_aset_eq, !zlen_app, Hlen. reflexivity.
+      * rewrite !nl_aset_neq by exact N. apply Hlen.
+    + intros u n Hin. destruct (Z.eq_dec u v) as [->|N].
+      * rewrite nl_aset_eq in Hin. apply in_app_or in Hin. destruct Hin as [Hin|[<-|[]]].
+        -- destruct (Hfrom _ _ Hin) as [j [Hj Ej]]. exists j. split; [lia | exact Ej].
+        -- exists k. split; [lia | reflexivity].
+      * rewrite nl_aset_neq in Hin by exact N. destruct (Hfrom _ _ Hin) as [j [Hj Ej]]. exists j. split; [lia | exact Ej].
 Qed.
